@@ -226,7 +226,7 @@ func c01Judge(t ev.TB, r *ev.Rec, n uint64, t10 int, th base.Threshold, counts [
 			if codeReq != req {
 				if w2, _, _, _, _ := c01Model(n, codeReq, counts); w2 == string(res) {
 					// the tally itself is right for the required count it was given: the count is wrong (C02's root cause)
-					sig = "required-count-float-ceil"
+					sig = "required-count-wrong"
 				}
 			}
 
@@ -408,7 +408,7 @@ func TestC01(t *testing.T) {
 	r.Assume("required count = min(n, ceil(n*t/100)) computed exactly (C02's oracle); thresholds are the float64 nearest to their one-decimal text",
 		"every vote names a fact (no zero-count entries), as CountBallotSignFacts produces them",
 		"when two facts both reach the required count (possible only with more votes than n) the statement does not single one out: any of them is accepted as the reported majority",
-		"a wrong answer of Threshold.VoteResult that is exactly the model's answer for the count Threshold.Threshold returned is attributed to the required-count defect (signature required-count-float-ceil)")
+		"a wrong answer of Threshold.VoteResult that is exactly the model's answer for the count Threshold.Threshold returned is attributed to the required-count defect (signature required-count-wrong)")
 
 	ths := make([]base.Threshold, c02MaxT10+1)
 	for t10 := c02MinT10; t10 <= c02MaxT10; t10++ {
